@@ -69,7 +69,12 @@ def close(a: float, b: float, rtol: float = RTOL, floor: float = 1.0) -> bool:
 # ---------------------------------------------------------------- driver
 def ensure_driver() -> None:
     if not DRIVER.exists():
-        r = subprocess.run(["lake", "build", "driver"], cwd=LEAN, capture_output=True, text=True)
+        import fcntl
+        (LEAN / ".audit").mkdir(exist_ok=True)
+        with open(LEAN / ".audit" / "lock", "w") as lk:
+            fcntl.flock(lk, fcntl.LOCK_EX)
+            r = subprocess.run(["lake", "build", "driver"], cwd=LEAN, capture_output=True, text=True)
+            fcntl.flock(lk, fcntl.LOCK_UN)
         if r.returncode != 0 or not DRIVER.exists():
             raise Infra("cannot build Lean driver:\n" + r.stdout + r.stderr)
 
